@@ -200,9 +200,90 @@ def runTab (ops : List String) : String :=
   | none => "bad-case"
   | some outs => ";".intercalate outs
 
+/-! ### exhaustive small universe (`exh`) -/
+
+def exhRanges : List (Nat × Nat) :=
+  (List.range 6).flatMap fun f => ((List.range 6).filter (f ≤ ·)).map fun l => (f, l)
+
+/-- alphabet `A`: the 21 ranges over tokens 0..=5 (replica `(first+last) % 2`, shard `first`);
+alphabet `B`: the same ranges with replica `(first+last) % 3` (node 2 is unknown at first) plus four topology steps. -/
+def exhAlphabet (alpha : String) : Option (List String) :=
+  if alpha == "A" then some (exhRanges.map fun r => s!"a{r.1}:{r.2}:{(r.1 + r.2) % 2}.{r.1}")
+  else if alpha == "B" then
+    some ((exhRanges.map fun r => s!"a{r.1}:{r.2}:{(r.1 + r.2) % 3}.0") ++ ["m/", "m0/", "n2@dc1", "m/1@dc0"])
+  else none
+
+def exhSetup : List String := ["n0@dc0", "n1@dc1"]
+
+def mix (h : UInt64) (v : Nat) : UInt64 := h * 1099511628211 + UInt64.ofNat v + 1
+
+def repsCode (rs : List Rep) : Nat := rs.foldl (fun c p => c * 64 + (p.1.hostId + 1) * 8 + p.2) 0
+
+def tabletCode : Option Tablet → Nat
+  | none => 0
+  | some t => 1 + t.first.toNat + 8 * t.last.toNat + 64 * repsCode t.replicas.all
+
+def optRepsCode : Option (List Rep) → Nat
+  | none => 0
+  | some r => 1 + repsCode r
+
+/-- what is observed in one state: every token, in full and per datacenter; size of the list; counters -/
+def exhEmit (w : World) (acc : Nat × UInt64) : Nat × UInt64 :=
+  let xs := w.table.tablets
+  let h := (List.range 6).foldl (fun h (t : Nat) =>
+    let tok : Int := t
+    let h := mix h (tabletCode (tabletForToken xs tok))
+    let h := mix h (optRepsCode (dcReplicasForToken xs tok "dc0"))
+    mix h (optRepsCode (dcReplicasForToken xs tok "dc1"))) acc.2
+  (acc.1 + 1, mix h (xs.length * 10000 + unresolved xs * 100 + staleCount w.nodes xs))
+
+def exhGo (ops : List String) : Nat → World → Nat × UInt64 → Nat × UInt64
+  | 0, w, acc => exhEmit w acc
+  | d + 1, w, acc =>
+    ops.foldl (fun acc op =>
+      match tabOp w op with
+      | some (w', _) => exhGo ops d w' acc
+      | none => acc) (exhEmit w acc)
+
+def runExh (alpha : String) (depth : Nat) (prefixIdx : List Nat) : String :=
+  match exhAlphabet alpha with
+  | none => "bad-case"
+  | some ops =>
+    match prefixIdx.mapM (fun i => ops[i]?) with
+    | none => "bad-case"
+    | some pre =>
+      let w := (exhSetup ++ pre).foldl (fun (w : Option World) op => w.bind fun w => (tabOp w op).map (·.1)) (some World.init)
+      match w with
+      | none => "bad-case"
+      | some w =>
+        let (n, h) := exhGo ops depth w (0, 14695981039346656037)
+        s!"{n} {h.toNat}"
+
+def showPayloadErr : PayloadErr → String
+  | .deserialization => "deserialization"
+  | .typecheck => "typecheck"
+  | .shardnum => "shardnum"
+  | .wrongrange => "wrongrange"
+
+def runPayload (arg : String) : String :=
+  if arg == "absent" then "absent" else
+  match parseHex arg with
+  | none => "bad-case"
+  | some bs =>
+    match parsePayload bs with
+    | .ok (f, l, reps) =>
+      let r := if reps.isEmpty then "-" else ",".intercalate (reps.map fun p => s!"{p.1}.{p.2}")
+      s!"ok {f}:{l}:{r}"
+    | .error e => "err " ++ showPayloadErr e
+
 def run (case _impl : String) : String :=
   match words case with
   | ["tab", ops] => runTab ((ops.splitOn ";").filter (· ≠ ""))
+  | ["payload", arg] => runPayload arg
+  | ["exh", alpha, depth, pre] =>
+    match depth.toNat?, parseNatList pre with
+    | some d, some p => if d ≤ 6 then runExh alpha d p else "bad-case"
+    | _, _ => "bad-case"
   | _ => "bad-case"
 
 end ScyllaVerif.Drive.C15
